@@ -430,6 +430,7 @@ func GenPlan(t *rapid.T, prop string) *Plan {
 	}
 	nt := rapid.IntRange(1, maxTasks).Draw(t, "nTasks")
 	maxCalls := 40
+	longHistory := false
 	if nt > 8 {
 		maxCalls = 6
 	} else if nt > 3 {
@@ -449,9 +450,22 @@ func GenPlan(t *rapid.T, prop string) *Plan {
 		p.SharedFields = append(p.SharedFields, f)
 	}
 	for i := 0; i < nt; i++ {
+		if i == 0 && nt <= 3 && weighted(t, "longHistory?", 9, 1) == 1 {
+			// state that only builds up over many calls (rings of reusable buffers,
+			// counters, caches with eviction): a few runs are long
+			longHistory = true
+		}
 		nc := rapid.IntRange(1, maxCalls).Draw(t, "nCalls")
+		if longHistory {
+			nc = rapid.SampledFrom([]int{70, 130, 260, 520}).Draw(t, "nCallsLong")
+		}
 		var calls []Call
 		for j := 0; j < nc; j++ {
+			if longHistory && j >= 12 {
+				// long histories repeat a short palette (keeps plan generation and shrinking cheap)
+				calls = append(calls, calls[rapid.IntRange(0, 11).Draw(t, "repeatOf")])
+				continue
+			}
 			calls = append(calls, genCall(t, prop, nsp, nsf))
 		}
 		p.Tasks = append(p.Tasks, calls)
